@@ -31,6 +31,12 @@ MODS = ["a", "b", "c", "m1", "util", "zeta"]
 PKGS = ["pkg", "pkg/sub", "lib"]
 STD = ["os", "math", "sys", "itertools"]
 
+# characters that str.splitlines() treats as line boundaries but "\n".split does not (and \f), raw inside string
+# literals: the stored source must keep them verbatim
+ODD = ["\x0b", "\x0c", "\x1c", "\x1d", "\x1e", "\x85", "\u2028", "\u2029", "\x1f", "\xa0"]
+ODD_BODY = [f's = "a{c}b"\nprint(s)' for c in ODD] + [f"t = 'x{ODD[0]}y{ODD[6]}z'", f'u = """k{ODD[2]}\nl{ODD[5]}"""',
+                                                      "v = 'carriage\rreturn'", f"w = 1  # comment {ODD[7]} here"]
+
 BODY = [
     "x = 1",
     "t = [ 1, 2 ] + [3]",
@@ -146,7 +152,7 @@ def gen_files(rng, dotted=False):
         if lines and rng.random() < 0.2:
             rng.shuffle(lines)
         k = rng.choice([0, 1, 1, 2, 3])
-        body = [rng.choice(BODY) for _ in range(k)]
+        body = [rng.choice(BODY) if rng.random() < 0.8 else rng.choice(ODD_BODY) for _ in range(k)]
         if rng.random() < 0.3:
             # an import nested in a function
             q = rng.choice(paths)
@@ -287,7 +293,27 @@ def run_real(root: Path, out_dir: Path, cleanup="full"):
         "importations": dict(db.importations), "exportations": dict(db.exportations)}))
     spath = out_dir / "out_db.sqlite"
     quiet(db.write_sqlite, spath)
+    res["sqlite_first"] = read_sqlite(spath)
+    # a second export onto the SAME existing files must leave the same facts (and the same JSON bytes)
+    quiet(db.write_sqlite, spath)
     res["sqlite"] = read_sqlite(spath)
+    quiet(db.write_json, jpath)
+    res["json_rewrite_same"] = jpath.read_text() == text
+    # the "verbatim" clause, computed independently of get_program: for a hint-free text the stored source is the
+    # cleaned text with blank ends stripped
+    from paroxython.preprocess_source import Cleanup
+    res["verbatim"] = None
+    for p, info in db.programs_infos.items():
+        try:
+            raw = (root / p).read_text()
+        except Exception:  # noqa
+            continue
+        if "paroxython" in raw.lower():
+            continue
+        expected = str(Cleanup(cleanup).run(raw)).strip()
+        if info["source"] != expected:
+            res["verbatim"] = {"path": p, "stored": info["source"], "expected": expected}
+            break
     return res
 
 
@@ -392,8 +418,20 @@ def judge_dir(ctx, drv, files, root, out_dir, cleanup="full"):
                 "what": "json.loads(get_json()) differs from the data computed in memory: "
                         + str(first_diff(res["json"], res["memory"])),
                 "impl": {"at": first_diff(res["json"], res["memory"])}}
-    if not res["json_file_same"]:
-        return {"kind": "violation", "what": "write_json wrote something else than get_json()", "impl": None}
+    if not res["json_file_same"] or not res["json_rewrite_same"]:
+        return {"kind": "violation", "what": "write_json wrote something else than get_json() (first or second write "
+                                             "onto the same file)", "impl": None}
+    if res["verbatim"] is not None:
+        return {"kind": "violation",
+                "what": f"stored source of {res['verbatim']['path']} is not verbatim the cleaned, hint-free source",
+                "impl": {"stored": res["verbatim"]["stored"]}, "spec": {"cleaned, blank ends stripped": res["verbatim"]["expected"]}}
+    if res["sqlite_first"] != res["sqlite"]:
+        return {"kind": "violation",
+                "what": "a second write_sqlite onto the same file changes the rows read back: "
+                        + str(first_diff(res["sqlite_first"], res["sqlite"])),
+                "impl": {"rows_after_first_write": {k: len(v) for k, v in res["sqlite_first"].items()},
+                         "rows_after_second_write": {k: len(v) for k, v in res["sqlite"].items()}},
+                "spec": "the SQLite export holds the same program, label and taxon facts"}
     progs = progs_request(res)
     if progs is None:
         return {"kind": "machinery", "what": "recording wrappers did not see one call per program"}
@@ -522,7 +560,9 @@ def stream_dirs(ctx, drv, n_dirs):
             if is_timeout:
                 ctx.dist("dirs.timeout")
             n_to = ctx.cov["distribution"].get("dirs.timeout", 0)
-            small = files if (is_timeout and n_to > 1) else shrink_files(files, still_fails, budget=6 if is_timeout else 40)
+            n_viol = len(ctx.violations)
+            small = files if ((is_timeout and n_to > 1) or n_viol >= 3) else shrink_files(
+                files, still_fails, budget=6 if is_timeout else 40)
             r = base / f"{name}-min" / "progs"
             write_dir(r, small)
             w = judge_dir(ctx, drv, small, r, r.parent, cleanup)
@@ -536,6 +576,9 @@ def stream_dirs(ctx, drv, n_dirs):
                            "how": "write the files under a fresh directory D; TagDatabase(D, ignore_timestamps=True, "
                                   "cleanup_strategy=cleanup); json.loads(get_json()) / write_sqlite"},
             })
+        if len(ctx.violations) >= 8:
+            ctx.notes.append("directory stream stopped after eight violations")
+            break
         if ctx.cov["distribution"].get("dirs.timeout", 0) >= 3:
             ctx.notes.append("directory stream stopped after three non-terminating directories (each costs a deadline)")
             break
@@ -558,6 +601,10 @@ def fixed_dirs():
                     "pkg/q.py": "def g():\n    return 1\n", "pkg/sub/n.py": "from pkg import q\nimport q\n",
                     "q.py": "import pkg.m\nimport unknown\n", "top.py": "from pkg.sub import n\nfrom pkg.sub.n import z\n"}),
         ("empty", {"a.py": "", "b.py": "import a\n"}),
+        ("odd-chars-1", {"a.py": "import b\n" + ODD_BODY[0] + "\n", "b.py": ODD_BODY[6] + "\n" + ODD_BODY[2] + "\n",
+                         "c.py": "import a\n" + ODD_BODY[10] + "\n"}),
+        ("odd-chars-2", {"a.py": ODD_BODY[1] + "\nimport b\n", "b.py": ODD_BODY[4] + "\n" + ODD_BODY[11] + "\n" + ODD_BODY[5] + "\n",
+                         "c.py": ODD_BODY[3] + "\n" + ODD_BODY[7] + "\n" + ODD_BODY[12] + "\n" + ODD_BODY[13] + "\n"}),
         # an entry point outside an import cycle, sorting BEFORE its members (and one sorting after)
         ("entry-before-cycle", {"main.py": "import utils\n", "utils.py": "import vectors\n", "vectors.py": "import utils\n"}),
         ("entry-before-self", {"a.py": "import b\n", "b.py": "import b\nx = 1\n", "c.py": "import b\n"}),
